@@ -180,6 +180,11 @@ func (ps *PeerSync) performInitialSync(ctx context.Context) error {
 		go func(pid PeerID) {
 			defer wg.Done()
 
+			// Remember the request so that the first poll tick does not ask the
+			// same peer again within the request interval.
+			if ps.poller != nil {
+				ps.poller.allowRequest(pid, time.Now(), true)
+			}
 			if err := ps.RequestPoll(ctx, pid); err != nil {
 				log.Printf("failed to send request poll to %s: %v", pid.String(), err)
 			}
